@@ -256,6 +256,16 @@ def outcome_key(rep, c):
 CBMC_FOR = {"C04": ["checksize", "footer", "getbits"], "C14": ["footer"]}
 
 
+def fsm_outcome_key(rep, c):
+    """what must not depend on the segmentation of a conversation: state changes with their times, bytes sent, final socket and tables"""
+    ridx = [i for i, o in enumerate(c.ops) if o == "run fsm"]
+    sidx = [i for i, o in enumerate(c.ops) if o == "show"]
+    didx = [i for i, o in enumerate(c.ops) if o == "dump"]
+    tr = rtroracle.Trace(rep[ridx[0]])
+    return (tuple(e for e in tr.events if e[0] in ("state", "open", "close", "sleep")), tuple(tr.sent_bytes()),
+            rep[sidx[1]][0] if len(sidx) > 1 else None, tuple(rep[didx[0]]) if didx else None)
+
+
 def run(pid, tier):
     rep = vlib.Report(pid, tier)
     Pp = PROPS[pid]
@@ -323,8 +333,18 @@ def run(pid, tier):
         return rtrgen.gen_fsm_case(ri, run_model)
     with ThreadPoolExecutor(max_workers=vlib.jobs()) as ex:
         fsm_cases += list(ex.map(gen_one, range(n_fsm)))
-    allcases = cases + [v for _, v in variants] + fsm_cases
-    fsm_ids = set(id(c) for c in fsm_cases)
+    # chunk independence of whole conversations (wait_for_sync with an expired timer, partial headers across reconnects ...)
+    fsm_variants = []
+    rv = vlib.rng(pid + "/fsmchunk")
+    for c in fsm_cases[:max(40, len(fsm_cases) // 3)]:
+        for mode in ("bytes", "whole"):
+            v = rtrgen.rechunk_case(rv, c, mode)
+            v.meta = dict(c.meta)
+            v.meta["good_tail"] = 0          # the convergence oracle runs on the original only
+            v.meta["mut"] = "fsm-rechunk-" + mode
+            fsm_variants.append((c, v))
+    allcases = cases + [v for _, v in variants] + fsm_cases + [v for _, v in fsm_variants]
+    fsm_ids = set(id(c) for c in fsm_cases) | set(id(v) for _, v in fsm_variants)
     results = run_cases(exe, drv, allcases)
     msan_bad, msan_n = [], 0
     if pid in ("C04", "C14"):
@@ -387,6 +407,18 @@ def run(pid, tier):
         except Exception as ex:
             fails.append((var, ("ORACLE", "rechunk comparison failed: %r" % (ex,))))
 
+    for base, var in fsm_variants:
+        bi, vi = byid.get(id(base)), byid.get(id(var))
+        if not bi or not vi or bi[2] or vi[2]:
+            continue
+        try:
+            if fsm_outcome_key(bi[0], base) != fsm_outcome_key(vi[0], var):
+                fails.append((var, ("C04", "the outcome of a conversation depends on how the stream is split into reads (compare with the same script, bytes merged: %s)" % (
+                    " ".join(o for o in base.ops if o.startswith("tape "))[:1500]))))
+        except Exception as ex:
+            fails.append((var, ("ORACLE", "fsm rechunk comparison failed: %r" % (ex,))))
+    stats["fsm_rechunk_pairs"] = len(fsm_variants)
+
     rep.cov.update({
         "evaluations": len(allcases), "distinct_nontrivial": len(distinct),
         "rule": "one response (valid, or with one mutation: duplicate, unknown withdrawal, bad flags, session mismatch, unexpected/unknown type, "
@@ -411,6 +443,13 @@ def run(pid, tier):
             rep.obligations["cbmc:" + k] = v["ok"]
             if not v["ok"]:
                 cb_failed.append((k, v))
+        if "checksize" in cb:
+            # the C transcription of the specification used by that obligation == the Lean model's checkSize (grid)
+            gb = cbmccheck.spec_grid_tie(rep, drv)
+            rep.obligations["tie:size_spec_grid"] = not gb
+            if gb:
+                cb_failed.append(("checksize", {"failed": ["harness/cbmc/size_spec.h differs from the Lean model's checkSize on: " + "; ".join(gb[:3])],
+                                                "inputs": {}, "log": "", "cmd": "tools/cbmccheck.py spec_grid_tie"}))
         # a counterexample of the size check is a PDU: run it through the real receive path like any other case
         for k, v in cb_failed:
             if k == "checksize" and v["inputs"]:
@@ -486,6 +525,55 @@ def run(pid, tier):
         vlib.proof_failure(rep, "\n".join(t for t, ok in rep.obligations.items() if not ok))
     rep.extra = {"divergences": len(divergences), "fails": len(fails)}
     return rep.finish()
+
+
+def replay(path):
+    """./check --replay <file> for the protocol domain: run the recorded conversation on the implementation of the current tree
+    (ASan/UBSan build, and the MemorySanitizer build) and on the model, re-evaluate the oracles; exit 1 if it still fails"""
+    ops = []
+    for l in open(path):
+        l = l.rstrip("\n")
+        if l.startswith("--- "):
+            break
+        if l and not l.startswith("#"):
+            ops.append(l)
+    if not ops or not ops[0].startswith("sock "):
+        print(open(path).read())
+        print("(no recorded conversation in this replay file: it names the proof obligation / correspondence that no longer checks)")
+        return 1
+    vlib.lake_build(["rtrdriver"])
+    drv = vlib.driver_path("rtrdriver")
+    exe, blog = vlib.build_harness("rtr", ["rtr_harness.c"], exclude=EXCLUDE, flags=vlib.SAN_FLAGS_NOALIGN)
+    if exe is None:
+        print(blog)
+        return 1
+    c = rtrgen.SyncCase()
+    c.ops = ops
+    c.meta = {"mut": "replay", "good_tail": 0}
+    bad = 0
+    (c, irep, mrep, crash), = run_cases(exe, drv, [c])
+    if crash:
+        print("implementation aborted (rc=%s): %s" % (crash[0], crash_signature(crash[1])))
+        print("\n".join(l for l in crash[1].splitlines() if "RTR Socket" not in l)[-3000:])
+        return 1
+    flat_i = [l for x in irep for l in x]
+    flat_m = [l for x in mrep for l in x]
+    print("\n".join(flat_i))
+    d = vlib.first_divergence(flat_i, flat_m)
+    if d is not None:
+        bad = 1
+        print("DIVERGENCE from the model at reply line %d\n impl : %s\n model: %s" % (d, flat_i[d] if d < len(flat_i) else "<eof>", flat_m[d] if d < len(flat_m) else "<eof>"))
+    fs, tr = (fsm_oracle if any(o == "run fsm" for o in ops) else sync_oracle)(c, irep)
+    for f in fs + cblog_fails(flat_i):
+        bad = 1
+        print("ORACLE %s: %s" % f)
+    mexe, mlog = vlib.build_harness("rtr_msan", ["rtr_harness.c"], exclude=EXCLUDE, flags=MSAN_FLAGS, link=["-fsanitize=memory"], cc="clang-14", variant="msan")
+    if mexe:
+        for c2, rc1, err1 in run_msan(mexe, [c]):
+            bad = 1
+            print("MemorySanitizer: %s" % crash_signature(err1))
+    print("replay: %s" % ("FAILS" if bad else "passes on the current tree"))
+    return bad
 
 
 def minimise(exe, ops, pred):
